@@ -38,6 +38,16 @@ const PLAIN_NAMES: &[&str] = &[
     "a", "b", "c", "ab", "abc", "a1", "a10", "b2", "name", "address", "street", "id", "x", "y", "z", "k", "k0", "k1",
     "given_name", "nationalities", "age", "A", "Ab", "$", "näme", "a/b", "~0",
 ];
+/// Names from the vocabulary of real credentials (OpenID Connect standard claims, SD-JWT VC,
+/// W3C VC data model, eKYC): code that special-cases a well-known claim reacts to these.
+const VOCAB_NAMES: &[&str] = &[
+    "family_name", "email", "email_verified", "phone_number", "phone_number_verified", "birthdate", "updated_at", "locale", "zoneinfo", "picture",
+    "gender", "street_address", "locality", "region", "postal_code", "country", "formatted", "is_over_18", "is_over_21", "is_over_65",
+    "place_of_birth", "age_equal_or_over", "vc", "credentialSubject", "type", "@context", "issuanceDate", "expirationDate", "degree", "evidence",
+    "verified_claims", "verification", "trust_framework", "time", "claims", "document", "number", "txn", "issuer", "date_of_issuance",
+    "validFrom", "validUntil", "sub_jwk", "family_name#ja-Kana-JP", "title#de", "title", "name#en", "id_token", "acr", "amr", "azp", "auth_time", "at_hash", "x5c", "cty",
+    "date_of_expiry", "issuing_authority", "issuing_country", "document_number", "portrait", "driving_privileges", "vehicle_category_code", "ssn", "salary", "role",
+];
 const HAZARD_NAMES: &[&str] = &[
     "a b", " a", "a ", "q\"uote", "back\\slash", "tab\t", "nl\n", "sl/ash", "til~de", "$", "co,mma", "co:lon", "\u{1}",
     "\u{7f}", "a\"", "\\", "\\u0041", "k,1", "a\":", "k:[", "'", "<>", "{}", "]", "a]", "%", "#", "@", "a=b", "-", "_",
@@ -59,6 +69,7 @@ pub fn name_strategy(cfg: ClaimCfg) -> BoxedStrategy<String> {
         .boxed();
     let mut choices: Vec<(u32, BoxedStrategy<String>)> = vec![
         (40, sel(PLAIN_NAMES)),
+        (12, sel(VOCAB_NAMES)),
         (10, random_ascii),
         (10, sel(HAZARD_NAMES)),
         (8, sel(BMP_NAMES)),
@@ -89,6 +100,13 @@ const TEXT_STRINGS: &[&str] = &[
     "", "x", "Schulstr. 12", "Möbius", "日本語のテキスト", "Привет", "ğ", "\u{80}", "\u{7ff}", "\u{800}", "\u{d7ff}", "\u{e000}", "\u{ffff}", "\u{fffd}",
     "😀", "x😀", "𝒳", "\u{10000}", "\u{10ffff}", "a\u{1f600}b\u{1f601}c", "e\u{301}", "\u{200d}", "\u{feff}",
     "https://example.com/issuer", "6c5c0a49-b589-431d-bae7-219122a9ec2c", "1940-01-01",
+    "DE", "US", "johndoe@example.com", "+1-202-555-0101", "2012-04-23T18:25:43.511Z", "2024-02-30", "true", "false", "Doe", "de_melde", "urn:eu.europa.ec.eudi:pid:1",
+    // one value, several customary spellings: nothing may be "tidied up"
+    "HTTPS://Social.Example.COM/Users/Erika", "https://Verifier.Example.org:443/Tenant-A/", "http://example.com:80", "Jane.Doe@Example.COM", " padded@example.com ",
+    "2012-04-23t18:25:43z", "2012-04-23T18:25:43+00:00", "2012-04-23 18:25:43", "2030-13-01T00:00:00Z", "2030-00-10T00:00:00Z", "20120423T182543Z", "1683000000", "1683000000.5",
+    "yes", "no", "NO", "On", "off", "TRUE", "False", "null", "N/A", "0x1F", "1e3", "+49 170 1234567", "tel:+1-201-555-0123", "de-DE", "en_US", "NOR", "6C5C0A49-B589-431D-BAE7-219122A9EC2C",
+    "c2FsdC1vbmU=", "c2FsdA==", "a+b/c=", "URN:ISBN:0451450523", "did:web:Example.COM", "mailto:Jane@Example.com",
+    "VerifiableCredential", "did:example:ebfeb1f712ebc6f1c276e12ec21", "data:image/jpeg;base64,/9j/4AAQSkZJRgABAQ", "M", "18",
     "$.a[0]", "$.address.street", "_sd", "...", "_sd_alg", "sha-256",
     "jsu9yVulwQQlhFlM_3JlzMaSFzglhQG0DpfayQwLUK4", "WyIyR0xDNDJzS1F2ZUNmR2ZyeU5STjl3IiwgImdpdmVuX25hbWUiLCAiSm9obiJd",
     "eyJhbGciOiAiRVMyNTYifQ", "{\"...\": \"jsu9yVulwQQlhFlM_3JlzMaSFzglhQG0DpfayQwLUK4\"}",
@@ -204,7 +222,9 @@ pub fn value_strategy(cfg: ClaimCfg, depth: u32) -> BoxedStrategy<Value> {
                 }
             }),
             // prefix-sharing sibling names on purpose
-            2 => (select(&[("a", "ab"), ("a", "a1"), ("k", "k0"), ("a1", "a10"), ("x", "xy"), ("A", "Ab")][..]), inner.clone(), inner.clone())
+            2 => (select(&[("a", "ab"), ("a", "a1"), ("k", "k0"), ("a1", "a10"), ("x", "xy"), ("A", "Ab"),
+                // a claim and its customary companion (verification flag, language-tagged variant)
+                ("email", "email_verified"), ("phone_number", "phone_number_verified"), ("title", "title#de"), ("family_name", "family_name#ja-Kana-JP")][..]), inner.clone(), inner.clone())
                 .prop_map(|((k1, k2), v1, v2)| {
                     // half of the time the shorter-named sibling is an object that has a member named
                     // like the *rest* of the longer name ("a" -> {"b": …} next to "ab"): a path
@@ -287,9 +307,19 @@ pub fn claims_strategy(cfg: ClaimCfg) -> BoxedStrategy<Value> {
         members,
         select(ISS_VALUES),
         2_000_000_000u64..4_102_444_800u64,
-        prop::option::weighted(0.5, prop_oneof![Just(1683000000u64), any::<u32>().prop_map(|x| x as u64), any::<u64>()]),
+        // iat / nbf are NumericDates: integers as a rule, now and then with a fraction
+        prop::option::weighted(
+            0.5,
+            prop_oneof![
+                4 => Just(Value::from(1683000000u64)),
+                4 => any::<u32>().prop_map(|x| Value::from(x as u64)),
+                4 => any::<u64>().prop_map(Value::from),
+                1 => Just(serde_json::json!(1683000000.5)),
+                1 => Just(serde_json::json!(1683000000.0)),
+            ],
+        ),
         prop::option::weighted(0.3, string_strategy(cfg)),
-        prop::option::weighted(0.2, 0u64..1_700_000_000u64),
+        prop::option::weighted(0.2, prop_oneof![8 => (0u64..1_700_000_000u64).prop_map(Value::from), 1 => Just(serde_json::json!(1600000000.25)), 1 => Just(serde_json::json!(0.0))]),
         any::<u64>(),
     )
         .prop_map(move |(members, iss, exp, iat, sub, nbf, order)| {
@@ -306,13 +336,16 @@ pub fn claims_strategy(cfg: ClaimCfg) -> BoxedStrategy<Value> {
             }
             let mut fixed: Vec<(String, Value)> = vec![("iss".into(), Value::String(iss.into())), ("exp".into(), Value::from(exp))];
             if let Some(i) = iat {
-                fixed.push(("iat".into(), Value::from(i)));
+                fixed.push(("iat".into(), i));
+            }
+            if order % 5 == 0 && !kv.iter().any(|(k, _)| k == "jti") {
+                fixed.push(("jti".into(), Value::String(["urn:uuid:6c5c0a49-b589-431d-bae7-219122a9ec2c", "credential-0001", "1"][(order / 5 % 3) as usize].into())));
             }
             if let Some(s) = sub {
                 fixed.push(("sub".into(), Value::String(s)));
             }
             if let Some(n) = nbf {
-                fixed.push(("nbf".into(), Value::from(n)));
+                fixed.push(("nbf".into(), n));
             }
             // now and then the credential is shaped like an SD-JWT VC (a visible `vct`, a `status`
             // object): profile-specific claims are ordinary claims to this library
